@@ -231,10 +231,16 @@ func DrawWorld(t *rapid.T, o WorldOpts) *World {
 // StartAll starts every node and its periodic events.
 func (w *World) StartAll() {
 	for _, n := range w.S.Nodes {
+		if n.IsAdversary {
+			continue
+		}
 		if err := n.Start(); err != nil {
 			w.T.Fatalf("infra: start %s: %v (log: %v)", n.Name, err, n.Log.Tail(5))
 		}
 		w.S.StartTicks(n)
+	}
+	if w.S.Adv != nil {
+		w.S.Adv.Start()
 	}
 }
 
@@ -288,6 +294,9 @@ func (w *World) ScheduleFaults(plan FaultPlan, horizon time.Duration) {
 		nc := simkit.Int(t, "ncrashes", 0, 3)
 		for i := 0; i < nc; i++ {
 			n := s.Nodes[simkit.Int(t, "crashnode", 0, len(s.Nodes)-1)]
+			if n.IsAdversary {
+				continue
+			}
 			at := time.Duration(simkit.Int(t, "crashat", 0, hz)) * time.Millisecond
 			down := time.Duration(simkit.Int(t, "downfor", 1, 20)) * w.BlockTime
 			mode := simkit.Int(t, "crashmode", 0, 2) // 0 graceful, 1 kill, 2 power loss
